@@ -114,13 +114,18 @@ def iter_state_machine(run, ctx, fn_suffix, label):
             for i, ev in conds:
                 m = H.pat_match("({m}.end == {m}.start)", ev.a) or H.pat_match("({m}.start == {m}.end)", ev.a)
                 if m:
-                    empt = (i, ev, m.group("m"))
+                    empt = (i, ev, m.group("m"), bool(ev.b))
+                    break
+                m = H.pat_match("({m}.end != {m}.start)", ev.a) or H.pat_match("({m}.start != {m}.end)", ev.a) \
+                    or H.pat_match("({m}.start < {m}.end)", ev.a) or H.pat_match("({m}.end > {m}.start)", ev.a)
+                if m:
+                    empt = (i, ev, m.group("m"), not ev.b)      # the same test, asked the other way round
                     break
             n_ob += 1
             if empt is None:
                 viol("no-empty-test", arms[0].node, "no test `m.start == m.end` after a successful search: empty matches would not advance")
                 continue
-            ei, eev, M_ = empt
+            ei, eev, M_, is_empty = empt
             mvar.add(M_)
             pos_assigns = S.assigns_to(p, lambda s: s == POS, ei)
             n_ob += 1
@@ -128,7 +133,7 @@ def iter_state_machine(run, ctx, fn_suffix, label):
                 viol("pos-not-updated", eev.node, "%s is not updated after a match" % POS)
                 continue
             pa = p.events[pos_assigns[0]]
-            if eev.b:   # empty match
+            if is_empty:   # empty match
                 want = "next_utf8(%s,%s.end)" % (TEXT, M_)
                 if pa.c != want:
                     viol("empty-no-step", pa.node, "after an empty match %s must become next_utf8(%s, %s.end), found %s" % (POS, TEXT, M_, pa.c))
@@ -455,9 +460,11 @@ def split_rule(run, ctx):
                     run.violation(fam, label, "finish-early", w, "Split::next returns None after the matches are exhausted without next_start > len being established (the last piece would be lost)")
             else:
                 saw["none-rem"] += 1
+                sm_ = S.Summary(p)
                 m = H.pat_match("Some(Ok({part}))", v or "")
                 lets = {ev.a: ev for ev in p.events if ev.kind == "let"}
                 sl = lets[m.group("part")].b if m and m.group("part") in lets else (v or "")
+                sl = H.subst_lets(sl, sm_.env)      # a piece bounded by named temporaries (also bound as a tuple)
                 mm = H.pat_match("{*t}[{*s}..{*e}]", sl)
                 if not mm:
                     run.violation(fam, label, "remainder-shape", w, "the remainder piece is not a slice target[next_start..len] (found %s)" % sl)
@@ -474,6 +481,9 @@ def split_rule(run, ctx):
                     pf = S.PathFacts(p.events, p.events.index(ev))
                     if pf.proves("Gt", H.linear(ev.node["r"]), ({"len(%s)" % T: 1}, 0)):
                         ok = True
+                    mk = re.match(r"^\((\d+) \+ len\(%s\)\)$" % re.escape(T), H.subst_lets(ev.c or "", sm_.env))
+                    if mk and int(mk.group(1)) >= 1:
+                        ok = True
                 if not ok:
                     run.violation(fam, label, "no-sentinel", w, "after yielding the remainder %s is not moved beyond len(%s): the remainder would be yielded again" % (St, T))
                 # guard: remainder only when next_start <= len
@@ -481,16 +491,18 @@ def split_rule(run, ctx):
         elif a0.b.startswith("Some(Ok("):
             saw["ok"] += 1
             M_ = H.pat_match("Some(Ok({m}))", a0.b).group("m")
+            sm_ = S.Summary(p)
             m = H.pat_match("Some(Ok({part}))", v or "")
             lets = {ev.a: ev for ev in p.events if ev.kind == "let"}
             sl = lets[m.group("part")].b if m and m.group("part") in lets else (v or "")
+            sl = H.subst_lets(sl, sm_.env)
             mm = H.pat_match("{*t}[{*s}..%s.start()]" % M_, sl)
             if not mm:
                 run.violation(fam, label, "piece-shape", w, "the piece before a match must be target[next_start..m.start()] (found %s)" % sl)
                 continue
             St = mm.group("s")
             asg = [ev for ev in p.events if ev.kind == "assign" and ev.a == St]
-            if not asg or asg[-1].c != "%s.end()" % M_ or asg[-1].b != "=":
+            if not asg or H.subst_lets(asg[-1].c or "", sm_.env) != "%s.end()" % M_ or asg[-1].b != "=":
                 run.violation(fam, label, "next-start", w, "after a match %s must become m.end() (found %s)" % (St, [a.c for a in asg]))
         elif a0.b.startswith("Some(Err("):
             saw["err"] += 1
@@ -513,55 +525,66 @@ def split_rule(run, ctx):
     paths = S.paths_of(fn["body"])
     n = 0
     kinds = {"zero": 0, "delegate": 0, "last": 0, "done": 0}
-    for p in paths:
-        n += 1
-        v = S.ret_value(p)
-        evs = p.events
-        c0 = [ev for ev in evs if ev.kind == "cond"]
-        if not c0 or not H.pat_match("({*l} == 0)", c0[0].a) and not H.pat_match("(0 == {*l})", c0[0].a):
-            run.violation(fam, label, "first-test", w, "SplitN::next must first test limit == 0 (found %s)" % (c0[0].a if c0 else None))
-            continue
-        mm = H.pat_match("({*l} == 0)", c0[0].a) or H.pat_match("(0 == {*l})", c0[0].a)
-        L = mm.group("l")
-        if c0[0].b:
-            kinds["zero"] += 1
-            if v != "None":
-                run.violation(fam, label, "zero-none", w, "limit == 0 must yield None (found %s)" % v)
-            if any(ev.kind in ("assign", "call") and "len(" not in (ev.a or "") for ev in evs[:evs.index(c0[0])]):
-                run.violation(fam, label, "zero-first", w, "work happens before the limit == 0 test")
-            continue
-        dec = [i for i, ev in enumerate(evs) if ev.kind == "assign" and ev.a == L and ev.b == "-=" and ev.c == "1"]
-        tst = [i for i, ev in enumerate(evs) if ev.kind == "cond" and (H.pat_match("(0 < %s)" % L, ev.a))]
-        if not dec or not tst or dec[0] > tst[0]:
-            run.violation(fam, label, "countdown", w, "limit must be decremented by one before the `limit > 0` test (dec %s test %s)" % (dec, tst))
-            continue
-        if evs[tst[0]].b:
-            kinds["delegate"] += 1
-            if not (v or "").endswith(".next()"):
-                run.violation(fam, label, "delegate", w, "while pieces remain SplitN must yield Split::next() (found %s)" % v)
-        else:
-            if v == "None":
-                kinds["done"] += 1
-                ok = _beyond_len(evs)
-                if not ok:
-                    run.violation(fam, label, "last-lost", w, "the N-th call returns None without next_start > len being established (the remainder would be lost)")
+    # decided under sample values of the remaining limit (followed through `-= 1`, `checked_sub(1)`, named copies):
+    # 0 -> None and nothing happens; 1 -> the limit becomes 0 and this call yields the untouched remainder (or None
+    # when Split already yielded it); n >= 2 -> the limit becomes n - 1 and Split::next() answers
+    LIM = None
+    for nd in H.walk(fn["body"]):
+        if nd.get("k") == "Field" and nd.get("name") == "limit":
+            LIM = H.canon(nd)
+            break
+    if LIM is None:
+        run.violation(fam, label, "first-test", w, "SplitN::next must first test limit == 0 (no use of the limit found)")
+        return
+    for L_ in (0, 1, 2, 5):
+        feas = [(p, S.run_path(p, {LIM: L_})) for p in paths]
+        feas = [(p, st, fin) for p, (st, fin) in feas if st is not False]
+        if not feas or any(st is not True for _, st, _ in feas):
+            # (conditions about the text position are not sampled: evaluate them as unknown but still require the
+            # limit decisions to be evaluable)
+            undec = [p for p, st, _ in feas if st is not True and any(ev.kind == "cond" and LIM in (ev.a or "") and S.eval_node(ev.node, {LIM: L_}) is None for ev in p.events)]
+            if not feas or undec:
+                run.violation(fam, label, "countdown", w, "for limit %d the decisions of SplitN::next cannot be evaluated (the limit must be tested against 0 and counted down by one)" % L_)
+                continue
+        for p, st, fin in feas:
+            n += 1
+            v = S.ret_value(p)
+            evs = p.events
+            if L_ == 0:
+                kinds["zero"] += 1
+                if v != "None":
+                    run.violation(fam, label, "zero-none", w, "limit == 0 must yield None (found %s)" % v)
+                if any((ev.kind == "assign") or (ev.kind == "call" and "len(" not in (ev.a or "") and "checked_sub" not in (ev.a or "") and "Some(" != (ev.a or "")[:5]) for ev in evs):
+                    run.violation(fam, label, "zero-first", w, "work happens although the limit is 0 (%s)" % [ev.a for ev in evs if ev.kind in ("assign", "call")][:3])
+                continue
+            if fin.get(LIM) != L_ - 1:
+                run.violation(fam, label, "countdown", w, "each call must count the limit down by exactly one (limit %d became %s)" % (L_, fin.get(LIM)))
+                continue
+            if L_ >= 2:
+                kinds["delegate"] += 1
+                if not (v or "").endswith(".next()") or "splits" not in (v or ""):
+                    run.violation(fam, label, "delegate", w, "while pieces remain SplitN must yield Split::next() (limit %d: found %s)" % (L_, v))
             else:
-                kinds["last"] += 1
-                mm = H.pat_match("Some(Ok({*t}[{*s}..{*e}]))", v or "")
-                if not mm:
-                    run.violation(fam, label, "last-shape", w, "the last piece must be the untouched remainder target[next_start..len] (found %s)" % v)
-                    continue
-                T, St, En = mm.group("t"), mm.group("s"), mm.group("e")
-                lets = {ev.a: ev.b for ev in evs if ev.kind == "let"}
-                if lets.get(En, En) != "len(%s)" % T:
-                    run.violation(fam, label, "last-end", w, "the last piece must extend to the end of the text (found %s)" % v)
-                src = lets.get(St, St)
-                if not src.endswith("next_start"):
-                    run.violation(fam, label, "last-start", w, "the last piece must start at Split's next_start (found %s)" % src)
+                if v == "None":
+                    kinds["done"] += 1
+                    if not _beyond_len(evs):
+                        run.violation(fam, label, "last-lost", w, "the N-th call returns None without next_start > len being established (the remainder would be lost)")
+                else:
+                    kinds["last"] += 1
+                    vv = H.subst_lets(v or "", S.Summary(p).env)
+                    mm = H.pat_match("Some(Ok({*t}[{*s}..{*e}]))", vv)
+                    if not mm:
+                        run.violation(fam, label, "last-shape", w, "the last piece must be the untouched remainder target[next_start..len] (found %s)" % v)
+                        continue
+                    T, St, En = mm.group("t"), mm.group("s"), mm.group("e")
+                    if En != "len(%s)" % T:
+                        run.violation(fam, label, "last-end", w, "the last piece must extend to the end of the text (found %s)" % v)
+                    if not St.endswith("next_start"):
+                        run.violation(fam, label, "last-start", w, "the last piece must start at Split's next_start (found %s)" % St)
     for k, c in kinds.items():
         if c < 1:
             run.violation(fam, label, "anchor-missing/" + k, w, "anchor-missing: SplitN::next path class '%s' not found" % k)
-    run.ok(fam, label, w, n, "limit==0 => None; decrement before `limit > 0`; delegate to Split::next; last piece = remainder")
+    run.ok(fam, label, w, n, "limit 0 => None; each call counts down by one; limit >= 2 => Split::next(); limit 1 => the remainder")
 
 
 # ---------------------------------------------------------------------------------------------
@@ -633,11 +656,30 @@ def replace_rule(run, ctx):
         bi = body_iter[0]
         fe = evs[bi]
         mpat = H.pat_match("({i},{m})", fe.a)
-        if not mpat:
-            run.violation(fam, label, which + "/loop-pattern", w, "loop pattern is not (i, item): %s" % fe.a)
-            continue
-        I_, ITEM = mpat.group("i"), mpat.group("m")
         rest = evs[bi:]
+        if mpat:
+            I_, ITEM = mpat.group("i"), mpat.group("m")
+        else:
+            # the same index kept by hand: a counter that is 0 before the loop and goes up by one with every
+            # replacement (an iteration that does not replace leaves the loop, so it equals enumerate()'s index)
+            ITEM = fe.a if re.match(r"^\w+$", fe.a or "") else None
+            zero = {(ev.a or "").replace("mut ", "") for ev in evs[:bi] if ev.kind == "let" and ev.b == "0"}
+            I_ = None
+            for ev in rest:
+                if ev.kind == "cond" and re.search(r"(?<![\w.])%s(?![\w(])" % re.escape(LIMIT), ev.a or ""):
+                    for nm in re.findall(r"[A-Za-z_]\w*", ev.a or ""):
+                        if nm in zero:
+                            I_ = nm
+            if I_ is None:
+                cand = [ev.a for ev in rest if ev.kind == "assign" and ev.a in zero and ev.b == "+=" and ev.a != LM]
+                I_ = cand[0] if cand else (sorted(zero - {LM})[0] if len(zero - {LM}) == 1 else None)
+            incs = [k for k, ev in enumerate(rest) if ev.kind == "assign" and ev.a == I_]
+            tests = [k for k, ev in enumerate(rest) if ev.kind == "cond" and I_ and re.search(r"(?<![\w.])%s(?![\w(])" % re.escape(I_), ev.a or "")]
+            replaced_here = any(ev.kind == "call" and ".start()])" in (ev.a or "") and ".push_str(" in (ev.a or "") for ev in rest)
+            if ITEM is None or I_ is None or any(rest[k].b != "+=" or rest[k].c != "1" for k in incs) \
+                    or (replaced_here and (len(incs) != 1 or (tests and incs[0] < tests[-1]))) or (not replaced_here and incs):
+                run.violation(fam, label, which + "/loop-pattern", w, "the loop neither enumerates the matches (`for (i, item) in ..enumerate()`) nor keeps a counter that starts at 0 and goes up by one per replacement, after the limit test: %s" % fe.a)
+                continue
         # error propagation precedes slicing
         tri = [k for k, ev in enumerate(rest) if ev.kind == "try-ok" and ev.a == ITEM]
         sl = [k for k, ev in enumerate(rest) if ev.kind == "call" and H.pat_match("%s.push_str(%s[%s..{m}.start()])" % (NEW, TEXT, LM), ev.a)]
@@ -647,7 +689,8 @@ def replace_rule(run, ctx):
             continue
         # the limit: the loop is left exactly when limit > 0 && i >= limit -- decided from the conditions met on the
         # path (any spelling: nested ifs, De Morgan, swapped operands)
-        pf = S.PathFacts(rest)
+        own_inc = [k for k, ev in enumerate(rest) if ev.kind == "assign" and ev.a == I_]
+        pf = S.PathFacts(rest, own_inc[0] if own_inc else None)      # (what was known when the limit was tested)
         lim_pos = pf.proves("Ne", LIMIT, 0) or pf.proves("Gt", LIMIT, 0)
         reached = pf.proves("Le", LIMIT, I_)
         lim_zero = pf.proves("Eq", LIMIT, 0) or pf.proves("Le", LIMIT, 0)
@@ -804,7 +847,8 @@ def own_matches(run, ctx):
                 for pl in places:
                     fl = [x for x in (pl.get("p") or []) if x["k"] == "Field" and x.get("adt") == A and x.get("name") in ("last_end", "last_match")]
                     if fl:
-                        n += 1
+                        # a write in a helper shared by both iterators stands for one write in each
+                        n += max(1, len(ctx.facts.owners_of(sp) & allowed))
                         if not ctx.facts.owned_by(sp, allowed):
                             sp_ = st["span"]
                             run.violation(fam, label, "%s/%s" % (sp, fl[0]["name"]), "%s:%d" % (sp_["file"], sp_["line"]),
